@@ -628,10 +628,22 @@ func c06R4(c *Ctx, r *Report) {
 			return nCalls > 0, "no caller"
 		}
 		ds := localDefs(fn)[o]
+		// `addr, ok := b.paramSlots[name]`: the table of entry-block parameter slots (all its writes are checked below)
+		ast.Inspect(fn.Decl.Body, func(x ast.Node) bool {
+			if as, isAs := x.(*ast.AssignStmt); isAs && len(as.Lhs) == 2 && len(as.Rhs) == 1 {
+				if id, isID := as.Lhs[0].(*ast.Ident); isID && (info.Defs[id] == o || info.Uses[id] == o) {
+					ds = append(ds, as.Rhs[0])
+				}
+			}
+			return true
+		})
 		if len(ds) == 0 {
 			return false, "no definition of " + o.Name()
 		}
 		for _, d := range ds {
+			if ix, isIx := ast.Unparen(d).(*ast.IndexExpr); isIx && strings.HasSuffix(exprStr(ix.X), ".paramSlots") {
+				continue
+			}
 			// box := b.gen.nextValueID() followed by a ferret_alloc call with Result: box
 			if cl, ok := ast.Unparen(d).(*ast.CallExpr); ok && strings.HasSuffix(exprStr(cl.Fun), ".nextValueID") {
 				isBox := false
@@ -680,7 +692,7 @@ func c06R4(c *Ctx, r *Report) {
 				return true
 			}
 			ix, ok := as.Lhs[0].(*ast.IndexExpr)
-			if !ok || !(strings.HasSuffix(exprStr(ix.X), ".slots") || strings.HasSuffix(exprStr(ix.X), ".tempSlots")) {
+			if !ok || !(strings.HasSuffix(exprStr(ix.X), ".slots") || strings.HasSuffix(exprStr(ix.X), ".tempSlots") || strings.HasSuffix(exprStr(ix.X), ".paramSlots")) {
 				return true
 			}
 			_ = info
